@@ -47,9 +47,11 @@ class CTracer(Tracer):
         self.saved = []             # cids in save order
 
     # ---- tokens
-    def _new(self, ch):
+    def _new(self, ch, arg=False):
         self.ncid += 1
         t = CTok(ch, self.ncid)
+        if arg:
+            self.ops.append(f".arg {ch}")      # a further tensor argument becomes the running tensor
         self.ccur = t.cid
         if self.needed is not None and t.cid in self.needed:
             self.ops.append(".save")
@@ -57,7 +59,7 @@ class CTracer(Tracer):
         return t
 
     def new_input(self, ch=None):
-        t = self._new(ch)
+        t = self._new(ch, arg=bool(self.inputs))
         self.inputs.append(t)
         if self.cur is None:
             self.cur = t
